@@ -449,12 +449,19 @@ impl Interner for SnapshotProvider<'_> {
         &self,
         version_set_union_id: VersionSetUnionId,
     ) -> impl Iterator<Item = VersionSetId> {
-        self.snapshot
+        // The members are stored as a hash set whose iteration order differs from
+        // one instance (and one process) to the next. Return them in a fixed order so
+        // that solving through a snapshot is reproducible.
+        let mut version_sets: Vec<_> = self
+            .snapshot
             .version_set_unions
             .get(version_set_union_id)
             .expect("missing constraint")
             .iter()
             .copied()
+            .collect();
+        version_sets.sort();
+        version_sets.into_iter()
     }
 }
 
